@@ -153,6 +153,12 @@ func message2Chunks(message []byte, header *base.RtmpHeader, prevHeader *base.Rt
 		lastChunkSize = len(message) % chunkSize
 		maxNeededLen += lastChunkSize + maxHeaderSize
 	}
+	// 长度为0的message，也需要一个只有包头的chunk
+	if len(message) == 0 {
+		numOfChunk = 1
+		lastChunkSize = 0
+		maxNeededLen = maxHeaderSize
+	}
 
 	out := make([]byte, maxNeededLen)
 
@@ -196,6 +202,11 @@ func message2ChunksV(message net.Buffers, header *base.RtmpHeader, prevHeader *b
 	if totalLen%chunkSize != 0 {
 		numOfChunk++
 		lastChunkSize = totalLen % chunkSize
+	}
+	// 长度为0的message，也需要一个只有包头的chunk
+	if totalLen == 0 {
+		numOfChunk = 1
+		lastChunkSize = 0
 	}
 
 	maxNeededLen := (chunkSize + maxHeaderSize) * numOfChunk
